@@ -336,7 +336,7 @@ def run(ctx):
     nc = len(cell_corpus(ctx.tier))
     ctx.bounds['cell_corpus'] = {'cells': nc, 'frames': [f[0] for f in FRAMES]}
     ctx.pmap(_cell_job, [(lo, lo + 100, ctx.tier) for lo in range(0, nc, 100)], chunksize=1)
-    ctx.pmap(_doc_job, [[j] for j in D.long_docs(ctx.seed) + D.huge_docs(ctx.seed + 2)] + list(X.chunks(jobs, 150)), chunksize=1)
+    ctx.pmap(_doc_job, [[j] for j in D.long_docs(ctx.seed) + D.huge_docs(ctx.seed + 2) + D.giant_jobs(ctx.seed) + D.aligned_jobs(ctx.seed) + [(['**kern'], ['DISTINCT'], ctx.seed)]] + list(X.chunks(jobs, 150)), chunksize=1)
 
 
 def replay(case):
